@@ -674,3 +674,91 @@ def r_johnsonrec(idx, rep, rule="R-JOHNSONREC"):
                       "so the solver can accept a sub-simplex that does not contain the minimum-norm point" % (u(st)[:100], j, sorted(S), why), "sum over %s, k = %s" % (sorted(X), sorted(ks)))
     for pr in sem.problems:
         rep.bad(rule, "distance3d.gjk._gjk_original::BarycentricCoordinates|" + pr[:120], ci.methods["__init__"].where, pr)
+
+
+# ---------------------------------------------------------------------------------------------------------------------------------
+# R-JOHNSONOPT: the optimality test in front of each sub-simplex of the main sub-algorithm is Johnson's condition
+#     S is optimal  <=>  Delta_i(S) > 0 for every i in S (|S| >= 2)   and   Delta_j(S + j) <= 0 for every other vertex j of the simplex.
+
+def _literals(e, ci, pol=True, depth=0):
+    """conjunction of literals ('pos' | 'nonpos', row, col) of a boolean method body; None when it is not a pure conjunction of such tests"""
+    if depth > 8:
+        return None
+    if isinstance(e, ast.UnaryOp) and isinstance(e.op, ast.Not):
+        return _literals(e.operand, ci, not pol, depth + 1)
+    if isinstance(e, ast.BoolOp):
+        conj = (isinstance(e.op, ast.And) and pol) or (isinstance(e.op, ast.Or) and not pol)
+        if not conj:
+            return None
+        out = set()
+        for v in e.values:
+            r = _literals(v, ci, pol, depth + 1)
+            if r is None:
+                return None
+            out |= r
+        return out
+    if isinstance(e, ast.Call) and isinstance(e.func, ast.Attribute) and e.func.attr in ci.methods and not e.args:
+        m = ci.methods[e.func.attr]
+        rets = [st for st in iter_stmts(m.node.body) if isinstance(st, ast.Return) and st.value is not None]
+        if len(rets) != 1:
+            return None
+        return _literals(rets[0].value, ci, pol, depth + 1)
+    n = ncmp(e)
+    if n is not None:
+        op, a, b = n                      # a < b  or  a <= b
+        for x, y, flipped in ((a, b, False), (b, a, True)):
+            acc = _d_access(x)
+            if acc is not None and isinstance(acc[0], int) and (const(y) in (0, 0.0) or (isinstance(y, ast.Name) and y.id.isupper())):
+                # not flipped:  d <(=) 0 ; flipped:  0 <(=) d
+                if not flipped:
+                    kind = "nonpos" if op == "<=" else "neg"
+                else:
+                    kind = "pos" if op == "<" else "nonneg"
+                if not pol:
+                    kind = {"nonpos": "pos", "pos": "nonpos", "neg": "nonneg", "nonneg": "neg"}[kind]
+                if kind in ("neg", "nonneg"):
+                    return None            # Johnson's conditions are `> 0` and `<= 0` (R-COFACTORSIGN reports the comparison itself)
+                return {(kind, acc[0], acc[1])}
+    return None
+
+
+def r_johnsonopt(idx, rep, rule="R-JOHNSONOPT"):
+    rep.rule(rule, "main sub-algorithm of the original GJK: the test in front of every sub-simplex S of an n-point simplex is exactly Johnson's optimality condition — "
+                   "d[i, col(S)] > 0 for all i in S and d[j, col(S + j)] <= 0 for all other j < n — after expanding the predicate methods into literals", floor=20)
+    _load_layout(idx)
+    ci = idx.cls(O + "::BarycentricCoordinates")
+    for fname, n in (("_distance_subalgorithm_line_segment", 2), ("_distance_subalgorithm_face", 3), ("_distance_subalgorithm_tetrahedron", 4)):
+        f = idx.func(O + "::" + fname)
+        dname = f.params()[1]
+        for st in f.node.body:
+            if not (isinstance(st, ast.If) and isinstance(st.test, ast.Call) and isinstance(st.test.func, ast.Attribute) and u(st.test.func.value) == dname):
+                continue
+            sel = [c for c in calls(st.body) if isinstance(c.func, ast.Attribute) and c.func.attr.startswith("select_")]
+            if sel:
+                S = {const(a) for a in sel[0].args}
+            elif any(isinstance(c.func, ast.Attribute) and c.func.attr in ("from_tetrahedron", "from_face") for c in calls(st.body)):
+                S = set(range(n))
+            else:
+                continue
+            where = "%s:%d" % (f.module.relpath, st.lineno)
+            key = "%s|%s guards sub-simplex %s" % (f.key, st.test.func.attr, sorted(S))
+            if None in S or not S <= set(range(n)):
+                rep.unknown(rule, key, where, "selected vertices not constant")
+                continue
+            lits = _literals(st.test, ci)
+            if lits is None:
+                rep.unknown(rule, key, where, "predicate `%s` is not a pure conjunction of `d[r, c] > 0` / `d[r, c] <= 0` tests" % st.test.func.attr)
+                continue
+            want = set()
+            if len(S) >= 2:
+                want |= {("pos", i, _col_of(S)) for i in S}
+            want |= {("nonpos", j, _col_of(S | {j})) for j in set(range(n)) - S}
+            missing, extra = want - lits, lits - want
+
+            def show(xs):
+                return sorted("d[%d, %d] %s" % (r, c, "> 0" if k == "pos" else "<= 0") for k, r, c in xs)
+            rep.check(not missing and not extra, rule, key, where,
+                      "the test in front of sub-simplex %s of a %d-point simplex expands to %s; Johnson's condition is %s%s%s: the solver %s" % (
+                          sorted(S), n, show(lits), show(want), ("; missing " + str(show(missing))) if missing else "", ("; not part of it " + str(show(extra))) if extra else "",
+                          "accepts a sub-simplex that does not contain the point of minimum norm" if missing else "rejects the optimal sub-simplex and falls through to another one"),
+                      "%d literals" % len(want))
